@@ -203,7 +203,7 @@ def decl(m):
 
 def method_unit(m, props, variants=None, extra_desc=''):
     role = 'ROLE_PRODUCER' if ROLE[m] == 'P' else 'ROLE_CONSUMER'
-    callees = CALLEES.get(m, [])
+    callees = CALLEES.get(m, []) + [c for c in ['load_AR_prod', 'store_AW_prod', 'load_AW_cons', 'load_AR_own', 'store_AR_cons'] if c not in CALLEES.get(m, [])]
     decls = ''.join(decl(c[3:]) for c in callees if c.startswith('BQ_'))
     harg = ''.join(', %s' % p for p in PARAMS.get(m, []))
     hdecl = ''.join(' integer_type %s;' % p for p in PARAMS.get(m, []))
